@@ -27,7 +27,7 @@ CFG = {
                   "equality |fake_full_tx| = |really signed tx| is C18's theorem, re-measured here on every built transaction; extraction and glue. No axioms. "
                   "K, the ex-unit total and the reference-script bytes are per-scenario measurements / ground truth supplied by the harness.",
     "theorems": ["C06_sufficient", "C06_fix_split", "C06_legacy_sufficient", "C06_sufficient_refuted", "C06_notless_refuted", "C06_priced", "C06_split", "C06_policy", "C06_validate",
-                 "C06_late_fee_request_legacy_refuted", "C06_select", "C06_telescope", "C06_telescope_closed", "C06_slack_widths"],
+                 "C06_late_fee_request_legacy_refuted", "C06_select", "C06_telescope", "C06_telescope_closed", "C06_slack_widths", "C06_concrete_size", "C06_sufficient_concrete", "C06_validate_concrete"],
     "allowed_axioms": [],
     "compare": "exact",
     "nontrivial": _nontrivial,
